@@ -52,7 +52,7 @@ Section Seq.
 
   Lemma exec_charge u uuid blen t : exec (charge_p u uuid blen) t = gk_add_update_appointment t u uuid blen.
   Proof.
-    unfold charge_p, gk_add_update_appointment. ex. unfold charge_user.
+    unfold charge_p, gk_add_update_appointment. ex.
     destruct (gk_get t u) as [ui|]; ex; [|reflexivity].
     unfold used_slots.
     destruct (N.leb (slots_of blen) (u_slots ui + match find_app (db_apps t) uuid with Some a => slots_of (b_len (a_blob a)) | None => 0 end));
@@ -77,35 +77,52 @@ Section Seq.
         destruct (status_accepted s); ex; reflexivity.
   Qed.
 
-  Lemma exec_store_appointment a t : exec (store_appointment_p a) t = w_store_appointment t a.
-  Proof. unfold store_appointment_p. ex. destruct (w_store_appointment t a) as [[] t'|s t']; reflexivity. Qed.
+  (* the value a store path returns: was the appointment stored (false = UnknownUser) *)
+  Definition with_flag (r : res unit) (b : bool) : res bool :=
+    match r with Ok _ t' => Ok b t' | Abort s t' => Abort s t' end.
 
-  Lemma exec_store_triggered a d t : exec (store_triggered_p sc a d) t = w_store_triggered sc t a d.
+  Lemma exec_store_appointment a t :
+    exec (store_appointment_p a) t = with_flag (w_store_appointment t a) (w_store_ok t a).
+  Proof. unfold store_appointment_p, store_act. ex. destruct (w_store_appointment t a) as [[] t'|s t']; reflexivity. Qed.
+
+  Lemma exec_store_triggered a d t :
+    exec (store_triggered_p sc a d) t =
+    with_flag (w_store_triggered sc t a d) (match decrypt (a_blob a) d with Some _ => w_store_ok t a | None => true end).
   Proof.
     unfold store_triggered_p, w_store_triggered.
     destruct (decrypt (a_blob a) d) as [p|].
-    - ex. rewrite exec_store_appointment. destruct (w_store_appointment t a) as [[] t1|s t1]; [|reflexivity].
-      cbn [bind]. rewrite exec_bind, exec_handle_breach.
-      destruct (r_handle_breach sc t1 (app_uuid a) d p) as [s t2|s t2]; [|reflexivity].
-      cbn [bind]. destruct (status_rejected s); [apply exec_delete_apps|reflexivity].
-    - ex. destruct (find_app (db_apps t) (app_uuid a)); [apply exec_delete_apps|reflexivity].
+    - rewrite exec_bind, exec_store_appointment.
+      destruct (w_store_ok t a) eqn:Eok.
+      + destruct (w_store_appointment t a) as [[] t1|s t1]; [|reflexivity].
+        cbn [bind with_flag]. rewrite !exec_bind, exec_handle_breach.
+        destruct (r_handle_breach sc t1 (app_uuid a) d p) as [s t2|s t2]; [|reflexivity].
+        cbn [bind]. destruct (status_rejected s); [|reflexivity].
+        rewrite exec_bind, exec_delete_apps. destruct (gk_delete_appointments t2 [app_uuid a] false) as [[] t3|s3 t3]; reflexivity.
+      + assert (Hs : w_store_appointment t a = Ok tt t).
+        { unfold w_store_appointment. unfold w_store_ok in Eok.
+          destruct (find_app (db_apps t) (app_uuid a)); [discriminate|]. rewrite Eok. reflexivity. }
+        rewrite Hs. reflexivity.
+    - ex. destruct (find_app (db_apps t) (app_uuid a)); [|reflexivity].
+      rewrite exec_delete_apps.
+      destruct (gk_delete_appointments t [app_uuid a] false) as [[] t3|s3 t3]; reflexivity.
   Qed.
 
   Lemma exec_authenticate signer t : exec (authenticate_p signer) t = Ok (authenticate t signer) t.
   Proof. unfold authenticate_p. destruct signer; reflexivity. Qed.
 
   Lemma exec_expired u t :
-    exec (expired_p u) t = match gk_get t u with
-                           | Some ui => Ok (N.leb (u_expiry ui) (gk_height t), u_expiry ui) t
-                           | None => Abort S_api_expired_unwrap t
-                           end.
-  Proof. unfold expired_p. ex. destruct (gk_get t u); reflexivity. Qed.
+    exec (expired_p u) t = Ok (match gk_get t u with
+                               | Some ui => Some (N.leb (u_expiry ui) (gk_height t), u_expiry ui)
+                               | None => None
+                               end) t.
+  Proof. unfold expired_p. ex. reflexivity. Qed.
 
   Lemma exec_cache_section a t :
     exec (cache_section_p sc a) t =
     match ti_get (w_cache t) (a_loc a) with
-    | Some dispute => w_store_triggered sc t a dispute
-    | None => w_store_appointment t a
+    | Some dispute => with_flag (w_store_triggered sc t a dispute)
+                                (match decrypt (a_blob a) dispute with Some _ => w_store_ok t a | None => true end)
+    | None => with_flag (w_store_appointment t a) (w_store_ok t a)
     end.
   Proof.
     unfold cache_section_p. ex. destruct (ti_get (w_cache t) (a_loc a)) as [d|].
@@ -123,10 +140,12 @@ Section Seq.
     ex. unfold has_tracker_p. ex. destruct (find_trk (db_trks t) (loc, u)); ex; [reflexivity|].
     rewrite exec_charge. destruct (gk_add_update_appointment t u (loc, u) (b_len b)) as [ch t1|s t1]; [|reflexivity].
     cbn [bind]. destruct ch as [available|]; [|reflexivity].
-    cbn [exec add_finish]. rewrite exec_bind, exec_cache_section. cbn [a_loc].
+    cbn [exec add_finish]. rewrite exec_bind, exec_cache_section. cbn [a_loc a_blob]. cbv zeta.
     destruct (ti_get (w_cache t1) loc) as [d|].
-    - destruct (w_store_triggered sc t1 (mk_app loc u b delay sig (w_height t)) d) as [[] t2|s t2]; reflexivity.
-    - destruct (w_store_appointment t1 (mk_app loc u b delay sig (w_height t))) as [[] t2|s t2]; reflexivity.
+    - destruct (w_store_triggered sc t1 (mk_app loc u b delay sig (w_height t)) d) as [[] t2|s t2]; [|reflexivity].
+      cbn [with_flag bind exec]. destruct (decrypt b d); [destruct (w_store_ok t1 _)|]; reflexivity.
+    - destruct (w_store_appointment t1 (mk_app loc u b delay sig (w_height t))) as [[] t2|s t2]; [|reflexivity].
+      cbn [with_flag bind exec]. destruct (w_store_ok t1 _); reflexivity.
   Qed.
 
   Lemma exec_get_appointment signer loc t : exec (get_appointment_p signer loc) t = w_get_appointment t signer loc.
@@ -136,6 +155,15 @@ Section Seq.
     rewrite exec_bind, exec_expired. destruct (gk_get t u) as [ui|]; [|reflexivity].
     cbn [fst snd]. destruct (N.leb (u_expiry ui) (gk_height t)); [reflexivity|].
     ex. unfold load_for_get. destruct (find_trk (db_trks t) (loc, u)), (find_app (db_apps t) (loc, u)); reflexivity.
+  Qed.
+
+  Lemma exec_get_subscription_info signer t : exec (get_subscription_info_p signer) t = w_get_subscription_info t signer.
+  Proof.
+    unfold get_subscription_info_p, w_get_subscription_info. rewrite exec_bind, exec_authenticate.
+    destruct (authenticate t signer) as [u|]; [|reflexivity].
+    rewrite exec_bind, exec_expired. destruct (gk_get t u) as [ui|] eqn:Eg; [|reflexivity].
+    cbn [fst snd]. destruct (N.leb (u_expiry ui) (gk_height t)); [reflexivity|].
+    ex. rewrite Eg. ex. reflexivity.
   Qed.
 
   Lemma exec_gk_connect h t : exec (gk_connect_p h) t = gk_block_connected t h.
@@ -149,7 +177,7 @@ Section Seq.
     exec (breach_uuid_loop_p sc d us invalid) t = breach_uuid_loop sc d us t invalid.
   Proof.
     induction us as [|uuid us IH]; intros invalid t; cbn [breach_uuid_loop_p breach_uuid_loop]; [reflexivity|].
-    ex. unfold load_breached. destruct (find_app (db_apps t) uuid) as [a|]; ex; [|reflexivity].
+    ex. destruct (find_app (db_apps t) uuid) as [a|]; ex; [|apply IH].
     destruct (decrypt (a_blob a) d) as [p|]; [|apply IH].
     rewrite exec_bind, exec_handle_breach. destruct (r_handle_breach sc t uuid d p) as [s t1|s t1]; [|reflexivity].
     cbn [bind]. apply IH.
@@ -279,19 +307,19 @@ Section Seq.
   Qed.
 
   (* THE tie between the two models: the thread program of an operation, run with nobody else
-     around, is the sequential step of Tower.v (get_subscription_info has no thread program) *)
+     around, is the sequential step of Tower.v *)
   Theorem exec_is_step t o :
-    (forall s, o <> OGetSub s) ->
     unwrap (exec (prog_of_op le sc t o) (set_rpc_log t [])) = step le t o sc.
   Proof.
-    intros Hns. destruct o as [u|signer loc b delay sig|signer loc|signer|hash txs|]; cbn [prog_of_op step].
+    destruct o as [u|signer loc b delay sig|signer loc|signer|hash txs|]; cbn [prog_of_op step].
     - unfold register_p. ex. rewrite exec_add_update_user.
       destruct (gk_add_update_user (set_rpc_log t []) u); reflexivity.
     - unfold add_p. ex. rewrite exec_add_appointment.
       destruct (w_add_appointment sc (set_rpc_log t []) signer loc b delay sig); reflexivity.
     - unfold get_p. ex. rewrite exec_get_appointment.
       destruct (w_get_appointment (set_rpc_log t []) signer loc); reflexivity.
-    - exfalso. apply (Hns signer). reflexivity.
+    - unfold getsub_p. ex. rewrite exec_get_subscription_info.
+      destruct (w_get_subscription_info (set_rpc_log t []) signer); reflexivity.
     - cbn [chain_p]. rewrite !exec_bind. rewrite exec_connect.
       change (gk_height (set_rpc_log t [])) with (gk_height t).
       destruct (run_listeners (listener_connected le sc hash txs (gk_height t + 1)) Consts.LISTENER_ORDER (set_rpc_log t [])) as [[] t1|s t1];
@@ -542,7 +570,7 @@ Record OblApi (G : list lock -> tower -> tower -> Prop) : Prop := {
 (* ... of the block events *)
 Record OblChain (G : list lock -> tower -> tower -> Prop) : Prop := {
   ob_forget : forall h t outd, has L_users h -> G h t (forget_users outd t);
-  ob_delete_users : forall h t outd, has L_db h -> G h t (db_delete_users t outd);
+  ob_delete_users : forall h t outd, has L_users h -> has L_db h -> G h t (db_delete_users t outd);
   ob_gk_height : forall h t x, G h t (set_gk_height t x);
   ob_w_height : forall h t x, G h t (set_w_height t x);
   ob_car_height : forall h t x, has L_carrier h -> G h t (set_car_height t x);
@@ -589,7 +617,7 @@ Ltac walk :=
   repeat (cbn [guark pbind acq rel act rd wr panic reach_p add_update_user_p charge_p delete_apps_p authenticate_p expired_p
                  gk_connect_p gk_disconnect_p send_p handle_breach_p reorged_p stale_p r_connect_p r_disconnect_p
                  store_appointment_p store_triggered_p cache_section_p has_tracker_p add_pre_p add_finish add_appointment_p
-                 get_appointment_p w_cache_p w_disconnect_p register_p add_p get_p fst snd state_of];
+                 get_appointment_p get_subscription_info_p w_cache_p w_disconnect_p register_p add_p get_p getsub_p fst snd state_of];
           try norm_held; try walk_step).
 
 Ltac kfin H :=
@@ -600,8 +628,8 @@ Ltac kfin H :=
 (* actions that only read (or abort without touching anything) *)
 Lemma st_reg_decide u bc t : state_of (reg_decide u bc t) = t.
 Proof. unfold reg_decide. destruct (gk_get t u); [destruct (u32_add _ _)|destruct (u32_add _ _)]; reflexivity. Qed.
-Lemma st_charge_user u t : state_of (charge_user u t) = t.
-Proof. unfold charge_user. destruct (gk_get t u); reflexivity. Qed.
+Lemma st_store_act a t : state_of (store_act a t) = state_of (w_store_appointment t a).
+Proof. unfold store_act. destruct (w_store_appointment t a); reflexivity. Qed.
 Lemma st_find_outdated h t : state_of (find_outdated h t) = t.
 Proof. unfold find_outdated. destruct (outdated_users _ _ _); reflexivity. Qed.
 Lemma st_index_lookup p t : state_of (index_lookup p t) = t.
@@ -610,8 +638,6 @@ Lemma st_load_stale uuid t : state_of (load_stale_tracker uuid t) = t.
 Proof. unfold load_stale_tracker. destruct (find_trk _ _); reflexivity. Qed.
 Lemma st_find_stale h t : state_of (find_stale h t) = t.
 Proof. unfold find_stale. destruct (u32_sub _ _); reflexivity. Qed.
-Lemma st_load_breached uuid t : state_of (load_breached uuid t) = t.
-Proof. unfold load_breached. destruct (find_app _ _); reflexivity. Qed.
 Lemma st_ask_mempool sc p t : state_of (ask_mempool sc p t) = snd (in_mempool sc t p).
 Proof. unfold ask_mempool. destruct (in_mempool sc t p); reflexivity. Qed.
 Lemma st_send_act sc tx t : state_of (send_act sc tx t) = snd (send_transaction sc t tx).
@@ -633,8 +659,8 @@ Section Structural.
   Context (G : list lock -> tower -> tower -> Prop) (le : bool) (sc : script) (HC : OblCommon G sc).
 
   Ltac leaf :=
-    rewrite ?st_reg_decide, ?st_charge_user, ?st_find_outdated, ?st_index_lookup, ?st_load_stale, ?st_find_stale,
-            ?st_load_breached, ?st_ask_mempool, ?st_send_act;
+    rewrite ?st_reg_decide, ?st_store_act, ?st_find_outdated, ?st_index_lookup, ?st_load_stale, ?st_find_stale,
+            ?st_ask_mempool, ?st_send_act;
     first [ apply (ob_refl G sc HC)
           | apply (ob_delete G sc HC); has_tac
           | apply (ob_mempool G sc HC); has_tac
@@ -670,11 +696,14 @@ Section Structural.
       (forall o, K [] o) -> guark G [] (add_p sc signer loc b delay sig) K.
     Proof.
       intros HK. unfold add_p, add_appointment_p, add_pre_p, authenticate_p. walk; try leaf; try apply HK;
-        try (apply (ob_set_user G HA); has_tac); try (apply (ob_store_app G HA); has_tac).
+        try (apply (ob_set_user G HA); has_tac); try (rewrite st_store_act; apply (ob_store_app G HA); has_tac).
     Qed.
 
     Lemma g_get signer loc (K : list lock -> out -> Prop) : (forall o, K [] o) -> guark G [] (get_p signer loc) K.
     Proof. intros HK. unfold get_p, get_appointment_p, authenticate_p. walk; try leaf; try apply HK. Qed.
+
+    Lemma g_getsub signer (K : list lock -> out -> Prop) : (forall o, K [] o) -> guark G [] (getsub_p signer) K.
+    Proof. intros HK. unfold getsub_p, get_subscription_info_p, authenticate_p. walk; try leaf; try apply HK. Qed.
   End Api.
 
   Section Chain.
@@ -773,7 +802,7 @@ Section Structural.
         - apply g_register; assumption.
         - apply g_add; assumption.
         - apply g_get; assumption.
-        - apply HK.
+        - apply g_getsub; assumption.
         - apply guark_bind. apply g_chain. apply HK.
         - apply guark_bind. apply g_chain. apply HK. }
       unfold prog_of_thread. destruct ops as [|o [|o' r]]; try apply Hop; apply guark_bind; apply g_chain; apply HK.
